@@ -211,8 +211,26 @@ def catalogue(seed):
         return c
     r = gen.rng(seed, PROP, 'catalogue')
     structs = []
+    bases = []
     for k in range(36):
-        nk = gen.random_structure(r, 5, atoms=('p', 'q'))
+        if k % 3 == 0:
+            nk = gen.random_structure(r, 5, atoms=('p', 'q'), nmin=3)
+            bases.append(nk)
+        else:
+            # a sibling of the last base: same number of states and of
+            # transitions, different wiring and labels (anything that keys a
+            # cache by size or by a recycled id() confuses them)
+            b = bases[-1]
+            succ = []
+            for i in range(b.n):
+                deg = bin(b.succ[i]).count('1')
+                m = 0
+                for j in r.sample(range(b.n), deg):
+                    m |= 1 << j
+                succ.append(m)
+            nk = NK(range(b.n), succ,
+                    [frozenset(a for a in ('p', 'q') if r.random() < 0.5)
+                     for _ in range(b.n)])
         labels = [set(l) for l in nk.labels]
         # user labels that collide with names the checkers invent
         if k % 3 == 1:
@@ -241,7 +259,15 @@ def catalogue(seed):
     atoms = ('p', 'q')
     for _ in range(14):
         forms.append(('CTL', gen.random_ctl(r, r.randint(1, 3), atoms)))
-    forms += [('CTL', ('E', ('G', ('ap', 'p')))),
+    forms += [('CTL', ('E', ('X', ('ap', 'p')))),
+              ('CTL', ('A', ('X', ('or', ('ap', 'p'), ('ap', 'q'))))),
+              ('CTL', ('E', ('X', ('E', ('X', ('ap', 'q')))))),
+              ('CTLS', ('E', ('X', ('ap', 'q')))),
+              ('CTLS', ('A', ('X', ('A', ('X', ('ap', 'p')))))),
+              ('CTLS', ('A', ('G', ('E', ('X', ('ap', 'p')))))),
+              ('CTLS', ('E', ('and', ('X', ('ap', 'p')),
+                              ('F', ('A', ('X', ('ap', 'q'))))))),
+              ('CTL', ('E', ('G', ('ap', 'p')))),
               ('CTL', ('A', ('F', ('ap', 'q')))),
               ('CTL', ('E', ('F', ('ap', 'fair')))),
               ('CTL', ('and', ('ap', 'fair'), ('E', ('X', ('ap', 'p'))))),
@@ -268,7 +294,7 @@ def history(r, hid):
     _before_mod[0] = None
     allstructs, allforms = catalogue(_seed[0])
     sidx = r.sample(range(len(allstructs)), 12)
-    fidx = r.sample(range(len(allforms)), 15)
+    fidx = r.sample(range(len(allforms)), 18)
     forms = [allforms[i] for i in fidx]
     live = {}
     parsers = {}
